@@ -291,6 +291,10 @@ class Check:
             self.violations.append({"what": what, "input": inp, "expected": expected, "actual": actual})
         self.count("violation:" + what)
 
+    def saturated(self, n=25):
+        """enough violations recorded: an exploration loop may stop early (keeps a badly broken tree from taking hours)"""
+        return len(self.violations) >= n
+
     # -- verdict --------------------------------------------------------------
     def write_replay(self, payload, tag=""):
         path = os.path.join(REPLAYS, "%s-%s%s.json" % (self.prop, self.seed, tag))
